@@ -327,6 +327,12 @@ func (r *rewriter) addYields() {
 		}
 		ast.Inspect(fd.Body, func(n ast.Node) bool {
 			ins := func(list []ast.Stmt) []ast.Stmt {
+				for _, s := range list {
+					switch s.(type) {
+					case *ast.CaseClause, *ast.CommClause:
+						return list // the body of a switch / select: statements go inside its clauses
+					}
+				}
 				var out []ast.Stmt
 				for _, s := range list {
 					if _, isDecl := s.(*ast.DeclStmt); !isDecl {
@@ -342,6 +348,8 @@ func (r *rewriter) addYields() {
 			case *ast.BlockStmt:
 				b.List = ins(b.List)
 			case *ast.CaseClause:
+				b.Body = ins(b.Body)
+			case *ast.CommClause:
 				b.Body = ins(b.Body)
 			case *ast.FuncLit:
 				return true
